@@ -73,7 +73,7 @@ def chk(pid):
 
 man = {"version": 1, "setup_cmd": "bin/setup",
  "hooks": {"guard": "verif",
-           "enable": "go test -tags verif -overlay /verif/.build/overlay-<ID>.json: virtual files /repo/<pkg>/zz_verif_*.go mapped from /verif/overlay (export shims, in-package tests); no source change in /repo",
+           "enable": "go test -tags verif -overlay /verif/.build/overlay-<ID>.json: virtual files /repo/<pkg>/zz_verif_*.go mapped from /verif/overlay (export shims; those that reach into struct fields carry a second tag - verif_udp for C05, verif_proxy for C10/C11, verif_tls for C07 - so that only the checks needing them compile them); no source change in /repo",
            "baseline_off_cmd": "cd /repo && GOFLAGS=-mod=mod GOPROXY=off GOSUMDB=off go test -vet=off -count=1 ./...",
            "source_commits": [], "add_only": True},
  "engines": [{"name": "vcheck", "path": "/verif/bin/vcheck", "serves_properties": sorted(CLAIMS),
